@@ -24,12 +24,32 @@ Property clause → theorem
                                                                          → `fill_price_within_limit` (per fill, both directions),
                                                                            `fill_price_within_limit_engine` (every fill the engine makes)
 * "An order that is matched receives a strictly positive amount"         → `matched_receives_positive`
-* "quote paid by buyers ≥ quote received by sellers, dust < number of individual fills" (given base conservation)
-                                                                         → `quote_dust_bounds`, `quote_dust_bounds_rounds`
+* "quote paid by buyers ≥ quote received by sellers, dust < number of individual fills"
+      lists of fills at one price / several rounds, given base conservation → `quote_dust_bounds`, `quote_dust_bounds_rounds`
+      COMPOSED over every result of `Match` / `MatchAtSinglePrice` (nothing assumed but well-formed orders with distinct ids):
+      `0 ≤ dust`, `lo·L ≤ dust·10¹⁸ ≤ hi·L + #fills·(10¹⁸−1)` with `L ≥ 0` the base coin defect D2 dropped; `L = 0` and
+      `dust < #fills` wherever nothing is lost; the statement IS the monitor  → `quote_dust_bounds_match`, `quote_dust_bounds_single`
+      the clause as written is FALSE of the code (consequence of D2)     → `quote_dust_counterexample`
 * "matching exchanges exactly as much base coin as buyers receive and sellers pay"
       FALSE of the code (defect D2)                                      → `base_conserved_counterexample`
       true when nothing is lost in the re-runs of the pro-rata distribution → `base_conserved_partial`
       always true on the buy side                                        → `base_conserved_partial_buys`
+      exactly when                                                       → `base_conserved_iff_lossless` (+ `_single`), `distribution_exact_iff_lossless`
+* the price of a pair's first batch (`FindMatchPrice`)                   → `found_price_in_spread`, `found_price_iff_crossing`,
+                                                                           `limit_respected_first_batch`, `price_uniform_first_batch`
+* pool orders (the pool never buys above / sells below its curve price, never offers more than it holds)
+      basic pools                                                        → `pool_buy_amount_on_curve`, `pool_sell_amount_on_curve`,
+                                                                           `pool_*_orders_within_reserves_and_curve`, `pool_offers_within_reserves`
+      ranged pools (virtual reserves; `DeriveTranslation` modelled)      → `ranged_buy_amount_on_curve`, `ranged_sell_amount_on_curve`,
+                                                                           `ranged_buy_keeps_product`, `ranged_sell_keeps_product`,
+                                                                           `ranged_pool_*_orders_within_reserves_and_curve`,
+                                                                           `ranged_limit_orders_covered`, `ranged_pool_offers_within_reserves`
+* stored orders across batches (`NewUserOrder` → matcher → `ApplyMatchResult` → expiry)
+      limit orders                                                       → `order_within_amount` (+ `_after_batch`, `_step`, `_validated`),
+                                                                           `offered_amount_within_open`
+      the fitted price of a limit order (both directions)                → `place_ok_limit_order`, `placed_price_within_limit`
+      limit + market + MM orders (MM cancellation)                       → `order_within_amount_all_orders`,
+                                                                           `market_order_price_on_grid`, `mm_order_ticks_on_grid`
 -/
 namespace Comdex.C05
 open Comdex Comdex.Amm
@@ -923,6 +943,12 @@ theorem place_ok_limit_order (prec : Nat) (hprec : 10 ^ prec < 2 ^ 300 - 1) (d :
     unfold hiIdx at h2'
     omega
   | sell => exact placeOk_sell prec x amount ha h1' h2'
+
+/-- **the price an order is stored with is never worse for the orderer than the price of the message**: a buy is fitted down, a sell
+up (monitor `placed_price_within_limit` on every real stored limit order) -/
+theorem placed_price_within_limit (prec x : Nat) (hx : lowestTick prec ≤ (x : Int)) :
+    priceToDownTick (x : Int) prec ≤ (x : Int) ∧ (x : Int) ≤ priceToUpTick (x : Int) prec :=
+  fitted_price_within_limit prec x (by unfold lowestTick at hx; exact_mod_cast hx)
 
 /-- `order_within_amount` with the assumption on the placed orders discharged: every limit order whose message price lies between
 the lowest and the highest tick and whose amount is not negative -/
